@@ -34,6 +34,8 @@
 #ifndef OF_DEBUG_H
 #define   OF_DEBUG_H /* { */
 
+#include "of_verif.h"
+
 /****** general macros ******/
 
 
